@@ -137,6 +137,16 @@ def minH : Handler := fun args => do
   | some cs => .ok (charsToBytes cs)
   | none => .error "unmodelled"
 
-def handlers : List (String × Handler) := [("model.c01.min", minH)]
+/-- `trig.c01.known <ver2020> <prog>` → `1` iff the program is in the modelled fragment and falls under an open known
+    finding of the model (K-C01-1 `return a,b,undefined`, K-C01-2 call merging below an effectful condition) -/
+def knownH : Handler := fun args => do
+  let v ← argBool args 0
+  let b ← argBytes args 1
+  let prog ← parseProg b
+  let plain := jsMinify { ver2020 := v } prog
+  let guarded := jsMinify { ver2020 := v, guarded := true } prog
+  .ok (boolBytes (plain.isSome && guarded.isNone))
+
+def handlers : List (String × Handler) := [("model.c01.min", minH), ("trig.c01.known", knownH)]
 
 end Verif.Driver.C01
